@@ -626,6 +626,18 @@ func recoverAndCheck(l *loaded, ic imgCase, dir string) (ps []ledger.Problem, br
 	}
 	if err != nil {
 		add("R6/new-commit-refused", "the recovered database refuses a new commit: %v", err)
+	} else {
+		// the new commit must not have damaged what was recovered (e.g. by writing over reloaded txs)
+		for id := uint64(1); id <= n; id++ {
+			if err := st.ReadTx(id, false, tx); err != nil {
+				add("R6/new-commit-damaged-recovered-tx", "after the new commit ReadTx(%d) fails: %v", id, err)
+				break
+			}
+			if tx.Header().Alh() != hdrs[id-1].Alh() {
+				add("R6/new-commit-damaged-recovered-tx", "after the new commit tx %d reads back with another alh", id)
+				break
+			}
+		}
 	}
 	return
 }
